@@ -136,14 +136,21 @@ class World:
             def download(self):
                 return world._download
 
+        class AltResource(RemoteResource):
+            URI_PREFIX = "alt://"
+
+            def download(self):
+                return world._download
+
         self.resource = MemResource()
+        self.resources = [self.resource, AltResource()]
         # name maps are computed with the real naming function on first open
         self.name_of = {}
         self.key_of_name = {}
         self.name_clash = False
         d = os.path.join(self.root, "names")
         os.makedirs(d, exist_ok=True)
-        self._learn_names(self.co.FileCache(d, size_GB=1, resources=[self.resource]))
+        self._learn_names(self.co.FileCache(d, size_GB=1, resources=list(self.resources)))
         shutil.rmtree(d, ignore_errors=True)
         _WORLD["w"] = self
 
@@ -155,11 +162,15 @@ class World:
             d.append("validate=val")
         if pp:
             d.append("postprocess=pp")
-        u = "mem://" + res + (("<<" + suffix) if suffix else "")
+        u = self.scheme(k) + res + (("<<" + suffix) if suffix else "")
         return (";".join(d) + ":" + u) if d else u
 
+    def scheme(self, k):
+        """two remote resources serve the keys (a cache usually has several: https, file, s3 ...); a request may mix them"""
+        return "alt://" if self.keys[k][0] in ("c", "e", "h") else "mem://"
+
     def stripped_uri(self, k):
-        return "mem://" + self.keys[k][0]
+        return self.scheme(k) + self.keys[k][0]
 
     def _learn_names(self, cache):
         from ocean_science_utilities.filecache.cache_object import parse_directive
@@ -209,6 +220,8 @@ class World:
             data = fp.read()
         if data == self.good_bytes(k):
             return "good"
+        if data[:8] == b"DAMAGED!" and len(data) == len(self.good_bytes(k)):
+            return "bad"            # a complete file whose content went bad (see invalidate): full size, must never be served
         if data == self.res_bytes(k):
             return "raw"
         return "partial"
@@ -292,8 +305,14 @@ class World:
     def _val(self, filepath):
         k = self.key_of_path(filepath)
         self._log("validate", k)
-        if k in self.rejects:
-            # validators may reject by returning False or by raising IOError (unreadable file)
+        try:
+            with open(filepath, "rb") as fp:
+                damaged = fp.read(8) == b"DAMAGED!"
+        except OSError:
+            damaged = True
+        if damaged:
+            # the validator judges the file it is given (no memory of its own: a new session, or a directory restored from a
+            # snapshot, gets the same verdicts); validators may reject by returning False or by raising IOError (unreadable file)
             if k in ("f",) or (k == "b" and len(self.log) % 2 == 0):
                 raise IOError("validation failed: cannot read %s" % os.path.basename(str(filepath)))
             return False
@@ -361,7 +380,10 @@ class World:
                 cfg = "unparsable"
         return {"open": c is not None, "entries": entries, "files": files, "max": mx,
                 "foreign": fo, "unknown": unknown + max(extra, 0), "tmp": tmp,
-                "cfg_max": (int(round(cfg["size_gb"] * 1e6)) if isinstance(cfg, dict) else -1)}
+                "cfg_max": (int(round(cfg["size_gb"] * 1e6)) if isinstance(cfg, dict) else -1),
+                # exact sizes in bytes: the size in force and the size a new session would read from the configuration file
+                "maxb": (int(c.config.max_size_bytes) if c is not None else 0),
+                "cfgb": (int(cfg["size_gb"] * self.co.GIGABYTE) if isinstance(cfg, dict) and "size_gb" in cfg else -1)}
 
     # ---- public operations ------------------------------------------------------------------------
     def open(self, lim_kb, par, am, evict):
@@ -371,16 +393,16 @@ class World:
             if self.registry:
                 World._names[0] += 1
                 self.regname = "verif-cache-%d" % World._names[0]
-                self.fcmod.create_cache(self.regname, cache_path=self.dir, cache_size_GB=lim_kb * 1000 / 1e9,
+                self.fcmod.create_cache(self.regname, cache_path=self.dir, cache_size_GB=(lim_kb * 1000 + (437 if lim_kb % 300 else 0)) / 1e9,
                                         do_cache_eviction_on_startup=evict, download_in_parallel=par,
-                                        resources=[self.resource])
+                                        resources=list(self.resources))
                 c = self.fcmod.get_cache(self.regname)
                 c.disable_progress_bar = True
                 self.fcmod.set_directive_function("postprocess", "pp", self._pp, cache_name=self.regname)
                 self.fcmod.set_directive_function("validate", "val", self._val, cache_name=self.regname)
             else:
-                c = self.co.FileCache(self.dir, size_GB=lim_kb * 1000 / 1e9,
-                                      do_cache_eviction_on_startup=evict, resources=[self.resource],
+                c = self.co.FileCache(self.dir, size_GB=(lim_kb * 1000 + (437 if lim_kb % 300 else 0)) / 1e9,
+                                      do_cache_eviction_on_startup=evict, resources=list(self.resources),
                                       parallel=par, allow_for_missing_files=am)
                 c.disable_progress_bar = True
                 c.set_directive_function("postprocess", "pp", self._pp)
@@ -395,7 +417,7 @@ class World:
                 # learn names from a throw-away object on an empty directory
                 d = os.path.join(self.root, "names")
                 os.makedirs(d, exist_ok=True)
-                self._learn_names(self.co.FileCache(d, size_GB=1, resources=[self.resource]))
+                self._learn_names(self.co.FileCache(d, size_GB=1, resources=list(self.resources)))
                 shutil.rmtree(d, ignore_errors=True)
         Q = self.project()
         return {"op": "open", "lim": lim_kb, "par": par, "am": am, "evict": evict,
@@ -411,7 +433,7 @@ class World:
             self.failed = set()
             mark = len(self.log)
             nozombie = self.live_attempts == 0
-        rejected = sorted(k for k in keys if k in self.rejects and k in P["entries"])
+        rejected = sorted({k for k in keys if self.keys[k][3] and k in P["entries"] and P["files"][k]["st"] == "bad"})
         result, paths, exc = "ok", [], None
         try:
             arg = self.uri(keys[0]) if (single and len(keys) == 1) else [self.uri(k) for k in keys]
@@ -488,8 +510,16 @@ class World:
         return {"op": "touch", "key": k, "mode": mode, "P": P, "Q": self.project()}
 
     def invalidate(self, k):
+        """the cached copy of k goes bad (what a validation directive exists for): its content is damaged on disk, time stamps kept,
+        and the validator rejects the key until a fresh copy has been fetched"""
         P = self.project()
         self.rejects.add(k)
+        p = self.final_path(k)
+        if os.path.exists(p):
+            st = os.stat(p)
+            with open(p, "r+b") as fp:
+                fp.write(b"DAMAGED!")
+            _orig_utime(p, ns=(st.st_atime_ns, st.st_mtime_ns))
         return {"op": "invalidate", "key": k, "P": P, "Q": self.project()}
 
     def foreign(self):
